@@ -43,7 +43,7 @@ ASSUMPTIONS = [
     "num_workers=0",
 ]
 TIERS = {
-    "quick": {"runs": 12000, "time_cap_s": 80, "chunk": 60, "det_inproc": 6, "det_fresh": 4, "minimise_s": 60},
+    "quick": {"runs": 9000, "time_cap_s": 80, "chunk": 60, "det_inproc": 6, "det_fresh": 4, "minimise_s": 60},
     "thorough": {"runs": 400000, "time_cap_s": 1200, "chunk": 100, "det_inproc": 30, "det_fresh": 15, "minimise_s": 180},
 }
 KINDS = ["single", "centroid", "centered", "bottomup"]
@@ -189,10 +189,10 @@ class DS:
         self.reads = []
 
     def fresh_sample(self, i):
-        if self.fresh is None:
-            lab = dw.build_labels(self.scene)
-            self.fresh = dw.build_dataset(self.kind, lab, self.cfg, np_chunks=self.npz, np_chunks_path=self.fresh_path)
-        return self.fresh[i]
+        # a brand-new dataset from pristine labels for every reference read: the reference has no read history at all
+        lab = dw.build_labels(self.scene)
+        fresh = dw.build_dataset(self.kind, lab, self.cfg, np_chunks=self.npz, np_chunks_path=self.fresh_path)
+        return fresh[i]
 
 
 def _truth_for_index(scene, kind, i):
